@@ -8,7 +8,8 @@
 From RV Require Import Model.Base Model.Spirv Model.Grammar Model.Reflect Model.Loader.
 From RV Require Import Gen.SpirvData Gen.LoaderData Inst.Linked Inst.PanicAudit.
 From RV Require Gen.PanicSites Gen.RefPanicAudit.
-From RV Require Import Model.Inst Model.Decoder Model.Parser Proofs.DecoderFacts Proofs.NoPanicFacts Inst.C05_inst.
+From RV Require Import Model.Inst Model.Decoder Model.Parser Proofs.DecoderFacts Proofs.NoPanicFacts Inst.C05_inst Inst.Run Proofs.LoadBytesFacts.
+From RV Require Import Model.Loader.
 
 Theorem C04_loader_arms_link :
   link_larms op_enum loader_arms_raw = Some loader_arms /\ loader_translation_failures = [].
@@ -57,6 +58,11 @@ Proof. exact serve_all_inv. Qed.
 Theorem C04_loader_never_panics : forall is, wellop is -> real_load is <> LPanic.
 Proof. exact real_no_panic. Qed.
 
+(** loading any byte string: neither the parser nor the loader consumer panics *)
+Theorem C04_load_never_panics :
+  forall bytes, lw_panic (fst (load_case bytes)) = false /\ forall p, snd (load_case bytes) <> Panic p.
+Proof. exact load_case_never_panics. Qed.
+
 Print Assumptions C04_loader_arms_link.
 Print Assumptions C04_panic_sites_audited.
 Print Assumptions C04_grammar_wellformed.
@@ -66,3 +72,4 @@ Print Assumptions C04_reads_stay_in_buffer.
 Print Assumptions C04_progress.
 Print Assumptions C04_decoder_requests_safe.
 Print Assumptions C04_loader_never_panics.
+Print Assumptions C04_load_never_panics.
